@@ -590,13 +590,20 @@ fn oracle_locate(ctx: &mut Ctx, case: &str, tpc: &PathTpc, s: &TrainState, input
     ctx.checked("C12", "front_segment_and_offset");
     let lps = tpc.link_points();
     let x = s.offset.value;
-    // the segment i with off_i < x <= off_{i+1}
+    // any segment i with off_i <= x <= off_{i+1} whose link is the reported one (a front exactly on a link point
+    // belongs to both neighbours: the statement admits either)
+    let mut ok = false;
     let mut i = 0;
-    while i + 2 < lps.len() && !(x <= lps[i + 1].offset.value) { i += 1; }
-    let base = lps[i].offset.value;
-    let seglen = lps[i + 1].offset.value - base;
-    let ok = s.link_idx_front as usize == lps[i].link_idx.idx() && base + s.offset_in_link.value == x
-        && s.offset_in_link.value >= 0.0 && s.offset_in_link.value <= seglen;
+    let (mut base, mut seglen) = (lps[0].offset.value, lps[1].offset.value - lps[0].offset.value);
+    for k in 0..lps.len() - 1 {
+        let b = lps[k].offset.value;
+        let e = lps[k + 1].offset.value;
+        if b <= x && x <= e {
+            if !ok { i = k; base = b; seglen = e - b; }
+            if s.link_idx_front as usize == lps[k].link_idx.idx() && b + s.offset_in_link.value == x
+                && s.offset_in_link.value >= 0.0 && s.offset_in_link.value <= e - b { ok = true; i = k; base = b; seglen = e - b; }
+        }
+    }
     if !ok {
         ctx.fail("C12", "front_segment_and_offset", case, format!("front {} reported as link {} + {} but lies in link {} (base {}, length {})", x, s.link_idx_front, s.offset_in_link.value, lps[i].link_idx.idx(), base, seglen), input.clone());
     }
@@ -652,6 +659,8 @@ fn speed_limit_case(ctx: &mut Ctx, r: &mut Rng, max_steps: usize) {
     sim.path_tpc = PathTpc::new(bu.tp);
     sim.loco_con = gen_train_consist(r);
     sim.state = st0;
+    // the step size of a speed-limited run is state.dt (1 s by default): vary it
+    sim.state.dt = uc::S * *r.pick(&[1.0, 1.0, 0.5, 2.0, 1.5]);
     sim.fric_brake = FricBrake::new(uc::N * (mass_static * *r.pick(&[0.3, 0.6, 1.0])), uc::S * *r.pick(&[0.0, 30.0, 60.0]), uc::R * 0.5, None, None);
     sim.set_save_interval(None);
     // incremental path-extension schedule: whole path or link by link before the walk
@@ -855,11 +864,55 @@ fn calc_idx_case(ctx: &mut Ctx, r: &mut Rng) {
     }
 }
 
+/// set_link_and_offset directly: fronts exactly at, one ulp around, between and beyond the link points
+fn locate_case(ctx: &mut Ctx, r: &mut Rng) {
+    let n = r.usize(1, 6);
+    let mut offs = vec![0.0f64];
+    for _ in 0..n { let l = *offs.last().unwrap(); offs.push(l + *r.pick(&[0.5, 4.0, 100.0, 2500.0])); }
+    // build a real PathTpc with these link lengths
+    let mut net = vec![Link::default()];
+    for k in 1..=n {
+        let len = offs[k] - offs[k - 1];
+        let mut l = Link { idx_curr: LinkIdx::new(k as u32), length: m(len), ..Default::default() };
+        l.elevs = vec![Elev { offset: m(0.0), elev: m(0.0) }, Elev { offset: m(len), elev: m(0.0) }];
+        l.speed_set = Some(SpeedSet { speed_limits: vec![SpeedLimit { offset_start: m(0.0), offset_end: m(len), speed: mps(20.0) }], speed_params: vec![], is_head_end: false });
+        l.idx_prev = LinkIdx::new(k as u32 - 1);
+        l.idx_next = LinkIdx::new(if k < n { k as u32 + 1 } else { 0 });
+        net.push(l);
+    }
+    let tp = gen_train_params(r, false);
+    let mut t = PathTpc::new(tp);
+    if t.extend(&net, &route_fwd(n)).is_err() { return; }
+    if r.chance(0.5) { t.finish(); }
+    let k = r.usize(0, n);
+    let x = match r.below(6) {
+        0 => offs[k],
+        1 => f64::from_bits(offs[k].to_bits() + 1),
+        2 => if offs[k] > 0.0 { f64::from_bits(offs[k].to_bits() - 1) } else { -1.0 },
+        3 => offs[n] + 10.0,
+        4 => -5.0,
+        _ => offs[n] * r.unit(),
+    };
+    let mut st = TrainState::new(m(10.0), uc::KG * 1.0e5, uc::KG * 1.0e3, uc::KG * 0.0, None);
+    st.offset = m(x);
+    let pre = st;
+    let res = guard(|| set_link_and_offset(&mut st, &t).map(|_| st));
+    let a = match &res { None => "panic".to_string(), Some(Err(_)) => "err".into(), Some(Ok(s2)) => format!("ok {}", tok_state(s2)) };
+    ctx.op("C12", "set_link_and_offset", &format!("{} {}", tok_lps(t.link_points()), tok_state(&pre)), &a);
+    ctx.count(match &res { None => "train.locate.panic", Some(Err(_)) => "train.locate.err", Some(Ok(_)) => "train.locate.ok" });
+    if let Some(Ok(s2)) = res {
+        if x > 0.0 && x <= offs[n] {
+            oracle_locate(ctx, "locate", &t, &s2, &json!({"link_point_offsets": offs, "front": x}));
+        }
+    }
+}
+
 pub fn run(ctx: &mut Ctx, r: &mut Rng, tier: &str) {
     let (np, nbad, nss, nsl, nidx, steps, slsteps) = if tier == "thorough" { (400, 200, 60, 60, 4000, 400, 3000) } else { (40, 20, 6, 8, 400, 150, 1200) };
     for i in 0..np { let mut rr = r.fork(); let _ = path_case(ctx, &mut rr, i % 2 == 0, false); }
     for _ in 0..nbad { let mut rr = r.fork(); bad_route_case(ctx, &mut rr); }
     for _ in 0..nidx { let mut rr = r.fork(); calc_idx_case(ctx, &mut rr); }
+    for _ in 0..nidx { let mut rr = r.fork(); locate_case(ctx, &mut rr); }
     for _ in 0..nss { let mut rr = r.fork(); set_speed_case(ctx, &mut rr, steps); }
     for _ in 0..nsl { let mut rr = r.fork(); speed_limit_case(ctx, &mut rr, slsteps); }
 }
